@@ -118,6 +118,24 @@ def _through(entry, name, fields):
 
             ns, _, nme = name.rpartition("/")
             d = schema_to_descriptor({"type": "record", "namespace": ns.replace("/", "."), "name": nme, "fields": [{"name": f, "type": ["string", "null"]} for _, f in fields]})
+        elif entry == "api_clone":
+            import warnings
+
+            with warnings.catch_warnings():
+                warnings.simplefilter("ignore")
+                d = RecordDescriptor(name, RecordDescriptor("c06/proto", [tuple(x) for x in fields]))
+        elif entry == "api_one_string":
+            import warnings
+
+            with warnings.catch_warnings():
+                warnings.simplefilter("ignore")
+                d = RecordDescriptor(name + "".join(f"\n{t} {f};" for t, f in fields))
+        elif entry == "stream_nested":
+            import msgpack
+
+            inner = msgpack.ExtType(14, msgpack.packb((2, ("c06/inner", [list(x) for x in fields])), use_bin_type=True))
+            blob = msgpack.packb(msgpack.ExtType(14, msgpack.packb((2, (name, inner)), use_bin_type=True, unicode_errors="surrogateescape")), use_bin_type=True)
+            d = RecordPacker().unpack(blob)
         elif entry == "grouped_api":
             from flow.record import GroupedRecord
 
@@ -140,7 +158,21 @@ def _through(entry, name, fields):
         return False, e
 
 
-def c06_definition(entry, name, fields):
+HOSTILE_DEFAULTS = [("A\nimport os", []), ("a b", []), ("A;B", []), ("tеst", []), ("_x/", []), ("ok", [("string", "a b")]), ("ok", [("string", "_hidden")]), ("ok", [("string\n", "a")]), ("ok", [("os.system", "a")]),
+                    ("A\rB", []), ("class", [("string", "x-y")])]
+
+
+def c06_definition(entry=None, name=None, fields=None):
+    if name is None or fields is None:
+        # the solver refuted the obligation without handing out a model: look for a failing input among a few fixed hostile definitions
+        last = {"violates": False, "note": "no model from the solver and none of the fixed hostile definitions fails"}
+        for nm_, fl_ in HOSTILE_DEFAULTS:
+            if entry is None:
+                break
+            last = c06_definition(entry, nm_, fl_)
+            if last.get("violates"):
+                return last
+        return last
     fields = [tuple(x) for x in fields]
     with Capture() as cap:
         accepted, res = _through(entry, name, fields)
